@@ -234,6 +234,8 @@ def gen_case(rng):
             if rng.random() < p:
                 case['grants'].append([perm, c])
     case['requests'] = gen_requests(rng, case, rng.choice([8, 10, 12]))
+    if rng.random() < 0.4:
+        case['sibling'] = True        # a second, open application is alive in the same process and serves each request first
     if case['cut'] is not None and rng.random() < 0.7:
         # the application serves traffic between the two commits (the same kind of requests)
         case['warm'] = [copy.deepcopy(r) for r in case['requests'] if r.get('op') != 'render' and rng.random() < 0.7][:8]
@@ -256,7 +258,8 @@ def _is_bool(x):
 
 def valid(case):
     try:
-        if not isinstance(case, dict) or set(case) - {'warm'} != {'stmts', 'cut', 'grants', 'flavour', 'requests'}:
+        if not isinstance(case, dict) or set(case) - {'warm', 'sibling'} != {'stmts', 'cut', 'grants', 'flavour', 'requests'} \
+                or ('sibling' in case and case['sibling'] is not True):
             return False
         st = case['stmts']
         cut = case['cut']
@@ -407,6 +410,10 @@ def shrinks(case):
         c2 = dict(case, cut=None)
         c2.pop('warm', None)
         yield c2
+    if case.get('sibling'):
+        c2 = dict(case)
+        del c2['sibling']
+        yield c2
     if case.get('warm'):
         c2 = dict(case)
         del c2['warm']
@@ -532,6 +539,13 @@ def targeted_cases():
             out.append(c)
             c = _case(copy.deepcopy(st), [['edit', [0, res]]], [copy.deepcopy(rq)], cut=len(st) - 2)
             c['warm'] = [copy.deepcopy(rq)]
+            out.append(c)
+    # two applications in one process: an open sibling serves the same request first
+    for st in ([dict(pol), _v(1, perm='view'), _v(2, name='v', ctx='A', perm='edit')],
+               [{'k': 'defperm', 'perm': 'edit', 'ctor': False}, _v(1), _v(2, name='v', kind='cls'), dict(pol)]):
+        for g in ([], [['view', [0, 0]]]):
+            c = _case(copy.deepcopy(st), g, [_rq(), _rq(vname='v', res=1), _rq()])
+            c['sibling'] = True
             out.append(c)
     # the deprecated policy pair
     lpol = {'k': 'policy', 'falsy': False, 'ctor': False, 'legacy': True}
